@@ -1204,3 +1204,48 @@ func (c *Ctx) standInSites(root *ssa.Function, spec string) []ssa.Instruction {
 	}
 	return out
 }
+
+// rulesR5selfret: C07.selfret
+func (c *Ctx) rulesR5selfret() {
+	c.rule("C07.selfret", "in the negotiation emitters (emitSelfEvents, emitEnterEvents, emitStateStateEvents, emitExitEvents) the partial-acceptance branch (auto transition, Auto state) does not carry the vetoing handler's Canceled out of the loop: on the edge that continues the loop from that branch the running result is the constant Executed, not the handler's return value. Otherwise a veto of the last state in target order cancels the whole auto mutation and with it the Auto states nothing rejected")
+	n := 0
+	for _, name := range []string{"emitSelfEvents", "emitEnterEvents", "emitStateStateEvents", "emitExitEvents"} {
+		f := c.fnOpt(pm + ":Transition." + name)
+		if f == nil {
+			continue
+		}
+		for _, b := range f.Blocks {
+			for _, ins := range b.Instrs {
+				phi, ok := ins.(*ssa.Phi)
+				if !ok || phi.Comment != "ret" {
+					continue
+				}
+				if bt := namedOf(phi.Type()); bt == nil || bt.Obj().Name() != "Result" {
+					continue
+				}
+				for i, e := range phi.Edges {
+					if i >= len(b.Preds) {
+						continue
+					}
+					p := b.Preds[i]
+					isAuto := false
+					for _, g := range guardsOf(p) {
+						if gCallTruth("IsAuto()", "Transition", "IsAuto", true).Match(g) {
+							isAuto = true
+						}
+					}
+					if !isAuto {
+						continue
+					}
+					n++
+					_, isConst := e.(*ssa.Const)
+					c.check(isConst, "C07.selfret", fmt.Sprintf("%s: the partial-acceptance branch continues with a constant result#%d", funcKey(f), n), phi.Pos(),
+						"after dropping the vetoed Auto state the running result is still "+render(e)+" (the handler's Canceled): returned after the loop it cancels the whole auto mutation")
+				}
+			}
+		}
+	}
+	if n < 1 {
+		c.ok("C07.selfret", "negotiation emitters keep no running result across the partial-acceptance branch", token.NoPos, "no loop-carried result found under IsAuto()")
+	}
+}
